@@ -7,6 +7,7 @@ import MidnightZK.Model.C17.Transcript
 import MidnightZK.Model.C17.Perm
 import MidnightZK.Model.C17.Params
 import MidnightZK.Model.C17.Zr
+import MidnightZK.Model.C17.Field
 import MidnightZK.Gen.C17Consts
 /-! Line-protocol handler of property C17. -/
 namespace MidnightZK.C17.Driver
@@ -59,27 +60,18 @@ def g1c : Codec Bytes := chunkCodec Gen.g1Compressed
 def g2c : Codec Bytes := chunkCodec Gen.g2Compressed
 def version : UInt8 := UInt8.ofNat Gen.vkVersion
 
-def r : Nat := Gen.frModulus
+def r : Nat := frR
 abbrev Fr := Zr Gen.frModulus
 def fr (n : Nat) : Fr := Zr.ofNat r n
-/-- `R⁻¹ mod r` for `R = 2^256`. -/
-def rInv : Nat := invMod (2 ^ 256 % r) r
-def fromMont (v : Nat) : Nat := v * rInv % r
 
 /-- Field elements as raw Montgomery integers (`read_raw` checks `< modulus`). -/
 def frCodec : FCodec Nat :=
   { flen := 32, enc := natLe 32, dec := fun b => let v := leNat b; if v < r then some v else none, decU := leNat }
 
-def rootOfUnity : Fr := fr (fromMont Gen.rootOfUnityMont)
-def rootOfUnityInv : Fr := fr (fromMont Gen.rootOfUnityInvMont)
-def twoInv : Fr := fr (fromMont Gen.twoInvMont)
-def delta : Fr := fr (fromMont Gen.deltaMont)
+def delta : Fr := fr deltaN
 
 /-- `EvaluationDomain::new` / `g_to_lagrange` / `unsafe_setup`: constants of the `2^k` domain. -/
-def dom (k : Nat) : Dom Fr :=
-  { omega := rootOfUnity.pow (2 ^ (Gen.frS - k))
-    omegaInv := rootOfUnityInv.pow (2 ^ (Gen.frS - k))
-    nInv := twoInv.pow k }
+def dom (k : Nat) : Dom Fr := { omega := fr (omegaN k), omegaInv := fr (omegaInvN k), nInv := fr (nInvN k) }
 
 def fmtFr (l : List Fr) : String := fmtHexList (l.map (·.val))
 
